@@ -87,10 +87,12 @@ package commands
 // path checked against the locks of other users, whatever happens to its
 // object afterwards (duplicate content, already uploaded, empty).
 //@ func (*uploadContext).prepareUpload
-//@   props C16
+//@   props C16 C03
 //@   requires @inv c.lockVerifier != nil && c.meter != nil
 //@   loop 1 iter has(c.lockVerifier.theirLocks, p.Name) ==> len(c.lockVerifier.unownedLocks) > iter(len(c.lockVerifier.unownedLocks))
 //@   loop 1 iter has(c.lockVerifier.theirLocks, p.Name) && c.lockVerifier.verifyState == 1 ==> len(uploadables) == iter(len(uploadables))
+//@   loop 1 iter @C03 !(has(c.lockVerifier.theirLocks, p.Name) && c.lockVerifier.verifyState == 1) && p.Size != 0 && !iter(has(uniqOids, p.Oid)) && !iter(has(c.uploadedOids, p.Oid)) ==> len(uploadables) == iter(len(uploadables)) + 1 && uploadables[iter(len(uploadables))] == p
+//@   loop 1 iter @C03 len(uploadables) >= iter(len(uploadables)) && len(uploadables) <= iter(len(uploadables)) + 1
 
 //@ func (*lockVerifier).LockedByThem
 //@   props C16
@@ -112,9 +114,11 @@ package commands
 
 // A push with foreign locks recorded is refused when verification is enabled.
 //@ func (*uploadContext).ReportErrors
-//@   props C16
+//@   props C16 C03
 //@   requires @inv c.lockVerifier != nil
 //@   ensures !(len(c.lockVerifier.unownedLocks) > 0 && c.lockVerifier.verifyState == 1)
+//@   ensures @C03 len(c.otherErrs) == 0
+//@   ensures @C03 (isempty(c.missing) && isempty(c.corrupt)) || c.allowMissing
 
 // Without --force a lock is only released after the modified-file guard for
 // that path / id returned nil.
@@ -238,8 +242,9 @@ package commands
 // Queueing an object for the remote check touches only the queue's own state.
 //@ func (*github.com/git-lfs/git-lfs/v3/tq.TransferQueue).Add
 //@   assumed
-//@   props C05
-//@   modifies fresh, map q.transfers, fields q.wait
+//@   props C05 C03
+//@   modifies fresh, map q.transfers, fields q.wait, ghost qadds[q]
+//@   ensures qadds(q) == old(qadds(q)) + 1
 
 // progress output and queue construction used by prune (assumed frames)
 //@ func logVerboseOutput
@@ -272,3 +277,98 @@ package commands
 //@ func (*github.com/git-lfs/git-lfs/v3/tasklog.PercentageTask).Complete
 //@   assumed
 //@   noeffect
+
+// C03: push completeness, command layer.  Every pointer the scan reports for
+// a ref update is queued for upload under its own id and object path unless
+// its object was already queued or uploaded by this process or is empty; a
+// scan error is never dropped; every update is scanned with the full
+// exclusion list and its queue is drained before the next one; and the
+// command only returns normally when no object was missing or corrupt (unless
+// lfs.allowincompletepush) and no other transfer error was collected.
+//@ func uploadForRefUpdates
+//@   props C03
+//@   requires @inv ctx != nil && ctx.lockVerifier != nil && ctx.meter != nil
+//@   loop 2 iter scanned(update) && drained(q)
+//@   at call commands.uploadRangeOrAll:1 assert arg2__ == q
+// Queue construction and the lock query (assumed frames).
+//@ func (*uploadContext).NewQueue
+//@   assumed
+//@   props C03
+//@   modifies fresh
+//@   ensures result != nil && isfresh(result)
+//@ func verifyLocksForUpdates
+//@   assumed
+//@   props C03
+//@   modifies fresh, fields lv
+//@ func (*uploadContext).buildGitScanner
+//@   assumed
+//@   props C03
+//@   modifies fresh
+//@   ensures result != nil
+//@ func uploadRangeOrAll
+//@   props C03
+//@   requires @inv g != nil && ctx != nil && update != nil
+//@   monitor scanned[update] := result == nil
+//@   ensures result == nil ==> ctx.scannerErr == nil
+//@   at call (*lfs.GitScanner).ScanMultiRangeToRemote:1 assert arg1__ == local_commitish(update)
+//@   at call (*lfs.GitScanner).ScanRefWithDeleted:1 assert arg1__ == local_commitish(update)
+//@ func (*github.com/git-lfs/git-lfs/v3/git.RefUpdate).LocalRefCommitish
+//@   assumed
+//@   props C03
+//@   modifies fresh
+//@   ensures result == local_commitish(u)
+//@ func (*uploadContext).gitScannerCallback$1
+//@   props C03
+//@   requires @inv c != nil && c.lockVerifier != nil && c.meter != nil
+//@   ensures err != nil ==> c.scannerErr != nil
+//@ func (*uploadContext).addScannerError
+//@   props C03
+//@   modifies field c.scannerErr
+//@   ensures err != nil ==> c.scannerErr != nil
+//@ func (*uploadContext).scannerError
+//@   props C03
+//@   noeffect
+//@   ensures result == c.scannerErr
+//@ func github.com/git-lfs/git-lfs/v3/errors.Join
+//@   assumed
+//@   props C03
+//@   pure
+//@   ensures len(errs) == 2 && errs[1] != nil ==> result != nil
+//@ func (*github.com/git-lfs/git-lfs/v3/config.Configuration).LocalWorkingDir
+//@   assumed
+//@   props C03
+//@   modifies fresh
+//@ func (*uploadContext).UploadPointers
+//@   props C03
+//@   requires @inv c != nil && c.lockVerifier != nil && c.meter != nil && c.gitfilter != nil && q != nil
+//@   at call (*tq.TransferQueue).Add:1 assert arg3__ == iter2(p.Oid) && arg2__ == objpath(iter2(p.Oid)) && arg4__ == p.Size && arg6__ == nil
+//@   at call (*tq.TransferQueue).Add:1 assert arg5__ ==> !iter2(c.allowMissing)
+//@   loop 2 iter qadds(q) == iter(qadds(q)) + 1
+//@ func (*uploadContext).uploadTransfer
+//@   props C03
+//@   requires @inv c != nil && c.gitfilter != nil && p != nil && p.Pointer != nil && p.Oid != fs.EmptyObjectSHA256
+//@   modifies all
+//@   ensures result1 == nil ==> result0 != nil && result0.Oid == old(p.Oid) && result0.Path == objpath(old(p.Oid)) && result0.Size == p.Size && result0.Name == old(p.Name)
+//@   ensures result1 == nil && result0.Missing ==> !old(c.allowMissing)
+//@   ensures result1 != nil ==> !err_cleanptr(result1)
+//@ func (*uploadContext).ensureFile
+//@   props C03
+//@   requires @inv c != nil && c.gitfilter != nil && c.gitfilter.cfg != nil
+//@   modifies all
+//@   ensures result0 ==> !old(c.allowMissing)
+//@ func (*uploadContext).CollectErrors
+//@   props C03
+//@   monitor drained[tqueue] := true
+//@   requires @inv c != nil && c.missing != nil && c.corrupt != nil && tqueue != nil
+//@   loop 1 iter !dyntype(err, "*github.com/git-lfs/git-lfs/v3/tq.MalformedObjectError") ==> len(c.otherErrs) == iter(len(c.otherErrs)) + 1
+//@   loop 1 iter dyntype(err, "*github.com/git-lfs/git-lfs/v3/tq.MalformedObjectError") ==> has(c.missing, ptr_as(err, "github.com/git-lfs/git-lfs/v3/tq.MalformedObjectError").Name) || has(c.corrupt, ptr_as(err, "github.com/git-lfs/git-lfs/v3/tq.MalformedObjectError").Name)
+//@   loop 1 iter len(c.otherErrs) >= iter(len(c.otherErrs))
+//@   dead latch3
+//@ func (*github.com/git-lfs/git-lfs/v3/tq.TransferQueue).Wait
+//@   assumed
+//@   props C03
+//@   modifies fresh
+//@ func (*github.com/git-lfs/git-lfs/v3/tq.TransferQueue).Errors
+//@   assumed
+//@   props C03
+//@   modifies fresh
